@@ -70,7 +70,7 @@ def check_list(acc, desc, structural, repeat=False):
     acc.transitions += 1
     try:
         if case.get("repeat"):
-            cg.tx.supergates(c)  # an earlier call on the same object must not matter
+            space.scramble(cg.tx.supergates(c))  # an earlier call (its result edited by the caller) on the same object must not matter
             if case["repeat"] == "edit":
                 flip = {"and": "or", "or": "and", "xor": "xnor", "xnor": "xor", "nand": "nor", "nor": "nand", "buf": "not", "not": "buf"}
                 for g in sorted(c.graph.nodes):
@@ -156,15 +156,15 @@ def hier_eval(superc, sg_map, order):
     raise refsim.RefError("hierarchical evaluation did not converge")
 
 
-def check_super(acc, desc):
+def check_super(acc, desc, variant=None):
     import circuitgraph as cg
 
-    case = {"kind": "super", "desc": desc}
+    case = {"kind": "super", "desc": desc, "variant": variant}
     c = space.build(desc)
     (out,) = tuple(c.outputs())
     acc.transitions += 1
     try:
-        superc, sg_map = cg.tx.supergates(c, construct_supercircuit=True)
+        c, (superc, sg_map) = space.call_with_history(desc, lambda x: cg.tx.supergates(x, construct_supercircuit=True), variant)
     except Exception as e:  # noqa: BLE001
         acc.violation("super", f"raises:{common.exc_name(e)}", case, repr(e))
         return
@@ -245,6 +245,9 @@ def run(job):
         if sum(1 for x in desc["nodes"] if x[3]) == 1:
             check_super(acc, desc)
         if (_idx // job["of"]) % 16 == 0:
+            if sum(1 for x in desc["nodes"] if x[3]) == 1:
+                for v in space.VARIANTS[1:]:
+                    check_super(acc, desc, variant=v)
             check_list(acc, desc, structural, repeat=True)
             check_list(acc, desc, structural, repeat="edit")
         acc.sample({"desc": desc})
@@ -259,5 +262,5 @@ def replay(case, job):
     if case["kind"] == "list":
         check_list(acc, case["desc"], case["structural"], repeat=case.get("repeat", False))
     else:
-        check_super(acc, case["desc"])
+        check_super(acc, case["desc"], variant=case.get("variant"))
     return acc.result()
